@@ -291,3 +291,49 @@ theorem session_one_swap (fuel : Nat) (sr : UInt64) (Pold Pnew : Prog) (inputs :
       simp only [sessionFrom_no_events fuel sr [(n, Pnew)] inputs k P' m2 (by simp; omega)]
 
 end Mimium.LiveCoding
+
+namespace Mimium.LiveCoding
+open Mimium.Core Mimium.Cells Mimium.StateTree Mimium.FlatTree Mimium.Publish Mimium.HotSwap Mimium.Migration
+
+/-! ### `carriesChild` (child indices of the published skeleton) and `carriesRange` (word offsets of the labelled layout) -/
+
+theorem skCells_append : ∀ (a b : List LCell), skCells (a ++ b) = skCells a ++ skCells b
+  | [], _ => rfl
+  | c :: a, b => by simp [skCells, skCells_append a b]
+
+theorem skCells_length : ∀ (a : List LCell), (skCells a).length = a.length
+  | [] => rfl
+  | c :: a => by simp [skCells, skCells_length a]
+
+theorem sizeL_feedOf (self : Option Shape) : sizeL (feedOf self) = selfSize self := by
+  cases self <;> simp [feedOf, sizeL, selfSize, Sk.size]
+
+/-- the child of the erased layout at the index of a labelled cell, and its offset -/
+theorem children_at (lay : LNode) (pre post : List LCell) (c : LCell) (hcells : lay.cells = pre ++ c :: post) :
+    (children lay.sk)[(feedOf lay.self).length + pre.length]? = some c.sk ∧
+    offsetOf (children lay.sk) ((feedOf lay.self).length + pre.length) = selfSize lay.self + sizeCells pre := by
+  have hch : children lay.sk = (feedOf lay.self ++ skCells pre) ++ c.sk :: skCells post := by
+    simp [children, LNode.sk, hcells, skCells_append, skCells]
+  have hl : (feedOf lay.self ++ skCells pre).length = (feedOf lay.self).length + pre.length := by
+    simp [skCells_length]
+  refine ⟨?_, ?_⟩
+  · rw [hch, ← hl, List.getElem?_append_right (Nat.le_refl _)]; simp
+  · rw [offsetOf, hch, ← hl, List.take_left' rfl, FlatTree.sizeL_append, sizeL_feedOf, skCells_size]
+
+/-- when nothing is pruned from the two skeletons (every call site of `dsp` is a function WITH state), `carriesChild` at
+the child indices of the two cells is `carriesRange` at their word offsets -/
+theorem carriesRange_of_carriesChild (lo ln : LNode) (preO postO preN postN : List LCell) (co cn : LCell)
+    (hco : lo.cells = preO ++ co :: postO) (hcn : ln.cells = preN ++ cn :: postN)
+    (hpo : publishedSk lo = lo.sk) (hpn : publishedSk ln = ln.sk)
+    (h : carriesChild (publishedSk lo) (publishedSk ln) ((feedOf lo.self).length + preO.length)
+      ((feedOf ln.self).length + preN.length) = true) :
+    co.size = cn.size ∧
+    carriesRange (planPatches (publishedSk lo) (publishedSk ln)) (selfSize lo.self + sizeCells preO)
+      (selfSize ln.self + sizeCells preN) co.size = true := by
+  obtain ⟨e1, o1⟩ := children_at lo preO postO co hco
+  obtain ⟨e2, o2⟩ := children_at ln preN postN cn hcn
+  rw [hpo, hpn] at h ⊢
+  simp only [carriesChild, e1, e2, o1, o2, Bool.and_eq_true, beq_iff_eq, sk_size] at h
+  exact h
+
+end Mimium.LiveCoding
